@@ -21,6 +21,7 @@ from vlib import exprs, monitors, reader
 
 PROP = 'C02'
 TITLE = 'escaping of inserted values'
+DEBUG_SHARDS = True      # two of sixteen shards run the library in its debug mode (vlib/runner.py)
 LEVEL = 'exploration'
 SHARDS = {'quick': 16, 'thorough': 16}
 FLOOR = {'quick': 800, 'thorough': 3000}
